@@ -286,6 +286,35 @@ theorem discard_implies_decompress (p : String) (env : String → Option String)
 example : parse "lbzip2" (fun _ => none) ["-t", "f"]
     = .config { decompress := true, outmode := .discard } ["f"] := by decide +kernel
 
+/-! ### The other documented options (what C17 relies on) -/
+
+/-- `keep` / `force` are set exactly when some `-k`/`--keep` resp.
+`-f`/`--force` is among the scanned options; the block size is that of the
+last `-1 … -9` / `--fast` / `--best`, 9 without any. -/
+theorem flags_and_level (p : String) (args : List Tok) (c : Config) (ops : List Tok)
+    (h : parseL p args = .config c ops) :
+    c.keep = (flatten args).any isKeepEv
+    ∧ c.force = (flatten args).any isForceEv
+    ∧ c.bs100k = (((flatten args).filterMap levelOf).getLast?).getD 9 := by
+  obtain ⟨c0, hi, hc⟩ := parseL_config h
+  have hk := interp_keep _ _ _ _ hi
+  have hf := interp_force _ _ _ _ hi
+  have hl := interp_level _ _ _ _ hi
+  have i1 : (initial p).keep = false ∧ (initial p).force = false ∧ (initial p).bs100k = 9 := by
+    unfold initial
+    split
+    · exact ⟨rfl, rfl, rfl⟩
+    · split <;> exact ⟨rfl, rfl, rfl⟩
+  rw [i1.1, Bool.false_or] at hk
+  rw [i1.2.1, Bool.false_or] at hf
+  rw [i1.2.2] at hl
+  rw [hc]
+  unfold finalC unsmallC
+  split <;> exact ⟨hk, hf, hl⟩
+
+example : parse "lbzip2" (fun _ => none) ["-1", "--keep", "-5f", "--fast", "-3", "x"]
+    = .config { keep := true, force := true, bs100k := 3 } ["x"] := by decide +kernel
+
 /-! ### Ignored options -/
 
 /-- the options documented as accepted and ignored, and `--small` -/
